@@ -121,6 +121,28 @@ def emit_setup(E):
     return sock, q, st, log, transport
 
 
+def suspension(E, sock, q, st, emitted):
+    """The generator's `yield` is where the sender hands the frame to the transport and may be suspended in the write
+    for any duration.  At that point (1) the queue invariant must hold - other coroutines run against it - and (2) the
+    *rely* is applied: other coroutines may queue frames meanwhile (send_frame: fresh source, maximal sequence number,
+    not started, any stream - in particular the stream being sent).  One append is enough to expose a step that is only
+    safe when nothing is queued during the write; the remainder of the generator then runs on the changed queue."""
+    def on_yield(v):
+        emitted.append(v)
+        s = q.attrs['_sym']
+        E.prove('emit:inv_q_holds_when_the_sender_suspends_in_the_write', inv_q_goal(E, s['arr'], s['h'], s['t'], st['started']))
+        if E.path.choice(2, 'queued-during-write') == 1:
+            fr = SOpaque('frame', 'queued-during-write')
+            fid = aio.registry(E).id_of(fr)
+            i = z3.Int('rely.i')
+            E.path.add(z3.ForAll([i], z3.Implies(z3.And(i >= s['h'], i < s['t']), SEQ(z3.Select(s['arr'], i)) < SEQ(fid))))
+            E.path.add(z3.Not(z3.Select(st['started'], fid)))
+            E.call(E.getattr(sock, 'send_frame'), [fr])
+            st['queued_during_write'] = fid
+        return None
+    return on_yield
+
+
 @harness('c05.emit', ['C05', 'C01'], functions=[GET_NEXT], replay='c05_emit',
          assumptions=['QueuePeekable.peek is used through its contract: returns the head without removing it (verified separately: c05.peek)',
                       'get_next_fragment of the queued source is used through its K-FRAG contract (C03)',
@@ -132,7 +154,7 @@ def emit(E):
     head = z3.Select(s['arr0'], s['h0'])
     cm = E.call(E.getattr(sock, '_get_next_frame_to_send'), [transport])
     emitted = []
-    E.run_generator(cm.gen, lambda v: emitted.append(v))
+    E.run_generator(cm.gen, suspension(E, sock, q, st, emitted))
     E.cover('emitted')
     E.prove('emit:exactly_one_frame', len(emitted) == 1)
     fr = emitted[0]
@@ -152,20 +174,24 @@ def emit_inv(E):
     s = q.attrs['_sym']
     cm = E.call(E.getattr(sock, '_get_next_frame_to_send'), [transport])
     emitted = []
-    E.run_generator(cm.gen, lambda v: emitted.append(v))
+    E.run_generator(cm.gen, suspension(E, sock, q, st, emitted))
     E.cover('emitted')
     follows = emitted[0].attrs.get('flags_follows', False) if emitted else False
     case = 'source finished or not fragmentable' if follows is False else 'fragment with more to follow'
     if isinstance(follows, SBool):
         case = 'fragment with more to follow' if E.decide(follows, 'follows') else 'last fragment'
     E.prove('emit:inv_q_preserved[%s]' % case, inv_q_goal(E, s['arr'], s['h'], s['t'], st['started']))
+    extra = 1 if 'queued_during_write' in st else 0       # a frame queued by another coroutine during the write
     if case != 'fragment with more to follow':
-        E.prove('emit:finished_source_leaves_queue[%s]' % case, z3.And(s['h'] == s['h0'] + 1, s['t'] == s['t0']))
+        E.prove('emit:finished_source_leaves_queue[%s]' % case, z3.And(s['h'] == s['h0'] + 1, s['t'] == s['t0'] + extra))
     else:
         E.prove('emit:unfinished_source_stays_queued',
-                z3.Or(z3.And(s['h'] == s['h0'], s['t'] == s['t0']),                        # kept at the head
-                      z3.And(s['h'] == s['h0'] + 1, s['t'] == s['t0'] + 1,                 # or moved to the tail
+                z3.Or(z3.And(s['h'] == s['h0'], s['t'] == s['t0'] + extra),                # kept at the head
+                      z3.And(s['h'] == s['h0'] + 1, s['t'] == s['t0'] + 1 + extra,         # or moved to the tail, *before* the write
                              z3.Select(s['arr'], s['t0']) == z3.Select(s['arr0'], s['h0']))))
+    if extra:
+        E.prove('emit:frame_queued_during_the_write_is_behind_everything_queued_before',
+                z3.Select(s['arr'], s['t'] - 1) == st['queued_during_write'])
 
 
 def _emit_bounded(n):
